@@ -172,7 +172,10 @@ func Verif_c22_fields() {
 	}
 	ifs := " \t\n"
 	ifsSet := false
-	if nifs := verifParam("nifs"); nifs >= 0 {
+	if nifs := verifParam("nifs"); nifs == -2 {
+		// a fixed mixed IFS (whitespace and non-whitespace), for longer values
+		ifsSet, ifs = true, " :"
+	} else if nifs >= 0 {
 		ifsSet = true
 		ifs = verifString("ifs", nifs)
 		for i := 0; i < len(ifs); i++ {
@@ -217,6 +220,138 @@ func Verif_c22_fields() {
 	if len(got) == len(want) {
 		for i := range got {
 			verifAssert(got[i] == want[i], "field differs from bash")
+		}
+	}
+	verifReach("end")
+}
+
+// ---- positional parameters: $@ $* "$@" "$*" with text around them ----
+
+type verifPosEnv struct {
+	ifs    string
+	ifsSet bool
+	params []string
+}
+
+func (e *verifPosEnv) Get(name string) Variable {
+	switch name {
+	case "IFS":
+		if e.ifsSet {
+			return Variable{Set: true, Kind: String, Str: e.ifs}
+		}
+	case "@", "*":
+		if e.params == nil {
+			return Variable{Set: true, Kind: Indexed, List: []string{}} // as the interpreter does
+		}
+		return Variable{Set: true, Kind: Indexed, List: e.params}
+	case "#":
+		return Variable{Set: true, Kind: String, Str: string(rune('0' + len(e.params)))}
+	case "1", "2":
+		if k := int(name[0] - '1'); k < len(e.params) {
+			return Variable{Set: true, Kind: String, Str: e.params[k]}
+		}
+	}
+	return Variable{}
+}
+func (e *verifPosEnv) Each(f func(string, Variable) bool) {}
+
+var verifPosTemplates = [...]string{`$@`, `$*`, `"$@"`, `"$*"`, `"a$@b"`, `x"$@"y`, `"$@"$1`, `"a$*b"`, `a$@`}
+
+// refPositional: the fields of template k for the given parameters; IFS is
+// set and not empty.
+func refPositional(k int, params []string, ifs string) []string {
+	sep := ifs[:1]
+	joined := strings.Join(params, sep)
+	// "$@" with text p before and s after it inside the same quotes, then an
+	// optional unquoted tail that is split and attached to the last field
+	at := func(p, s string) []string {
+		if len(params) == 0 {
+			if p+s == "" {
+				return nil
+			}
+			return []string{p + s}
+		}
+		out := append([]string(nil), params...)
+		out[0] = p + out[0]
+		out[len(out)-1] += s
+		return out
+	}
+	switch k {
+	case 0, 1:
+		return refSplit([]refSeg{{joined, 0}}, ifs, refSplitOpts{})
+	case 2:
+		return at("", "")
+	case 3:
+		return []string{joined}
+	case 4:
+		return at("a", "b")
+	case 5:
+		out := at("", "")
+		if len(out) == 0 {
+			return []string{"xy"}
+		}
+		out[0] = "x" + out[0]
+		out[len(out)-1] += "y"
+		return out
+	case 6:
+		first := ""
+		if len(params) > 0 {
+			first = params[0]
+		}
+		if len(params) == 0 {
+			return nil
+		}
+		// "$@" followed by unquoted $1: its first field joins the last element
+		segs := []refSeg{}
+		for i, p := range params {
+			if i > 0 {
+				segs = append(segs, refSeg{"\x00", 3})
+			}
+			segs = append(segs, refSeg{p, 1})
+		}
+		_ = segs
+		tail := refSplit([]refSeg{{params[len(params)-1], 1}, {first, 0}}, ifs, refSplitOpts{})
+		return append(append([]string(nil), params[:len(params)-1]...), tail...)
+	case 7:
+		return []string{"a" + joined + "b"}
+	default:
+		return refSplit([]refSeg{{"a", 2}, {joined, 0}}, ifs, refSplitOpts{})
+	}
+}
+
+// Verif_c22_positional: words built from $@ and $* produce the fields of bash.
+func Verif_c22_positional() {
+	k := verifParam("tmpl")
+	if k < 0 {
+		k = verifChoice("tmpl", len(verifPosTemplates))
+	}
+	np := verifChoice("nparams", 3)
+	var params []string
+	ids := [...]string{"p1", "p2"}
+	for i := 0; i < np; i++ {
+		p := verifString(ids[i], verifChoice(ids[i]+"len", verifParam("np")+1))
+		for j := 0; j < len(p); j++ {
+			verifAssume(verifInSet(p[j], " :ab"))
+		}
+		params = append(params, p)
+	}
+	ifsChoices := [...]string{" \t\n", ":", " :", ": "}
+	ifs := ifsChoices[verifChoice("ifs", len(ifsChoices))]
+	// a bare $@ or $* under an IFS mixing whitespace and other characters
+	// follows bash's list expansion in corner cases (empty or blank leading
+	// parameters) that the reference does not model
+	verifAssume(!(k <= 1 && len(ifs) == 2))
+	env := &verifPosEnv{ifs: ifs, ifsSet: true, params: params}
+	f, err := syntax.NewParser().Parse(strings.NewReader("c "+verifPosTemplates[k]), "")
+	verifAssume(err == nil)
+	words := f.Stmts[0].Cmd.(*syntax.CallExpr).Args[1:]
+	got, ferr := Fields(&Config{Env: env}, words...)
+	verifAssert(ferr == nil, "Fields failed")
+	want := refPositional(k, params, ifs)
+	verifAssert(len(got) == len(want), "positional parameters: number of fields differs from bash")
+	if len(got) == len(want) {
+		for i := range got {
+			verifAssert(got[i] == want[i], "positional parameters: field differs from bash")
 		}
 	}
 	verifReach("end")
